@@ -23,15 +23,31 @@
       limit), [Some 16] the tree with fixes/30-op-depth-limit.patch.
     - Undefined behaviour is an outcome ([UB]): [ADDRXLAT_CAPS(as)] with [as]
       outside [0, 63] (shift count), a method index outside the [meth] array,
-      more than [ADDRXLAT_FIELDS_MAX] address fields, a field or memory-array
-      shift of 64 bits or more.
+      a field or memory-array shift of 64 bits or more.
     - The memory behind the get-page callback is the function [mem as addr
       size] returning the callback's status and the loaded value; the 4-slot
       read cache of ctx.c is transparent for such a callback and not
       modelled here (see design.d/C09.md).
+    - Page tables come in two shapes.  [MPgt] is the PFN32/PFN64 table of
+      step.c written out here; [MPgtF] is a page table of *any* format: the
+      walk loop of [addrxlat_walk] is written here over the step record of
+      Xlat/Step.v, while the format's first-step function, its next-step
+      transition (given the raw PTE just read) and its PTE size are the
+      section variables [fmt_first], [fmt_next], [fmt_ptesz] -- every theorem
+      holds for any format.  Sys/StepGlue.v instantiates them with the walk
+      agent's [Step.first_step_pgt] / [Step.next_step_pgt] / [Step.pte_size].
+    - Section [Interp] is the interpreter over a memory *function* [mem];
+      section [Cached] is the same interpreter with the 4-slot read cache of
+      ctx.c ([Hist/ReadCache.v]: [get_cache_buf] with its LRU ring and its
+      "Infinite read recursion" guard, [do_read32]/[do_read64] with the
+      buffer's byte order) threaded through every read, and a get-page
+      callback that may re-enter the library ([addrxlat_fulladdr_conv] on the
+      same context) before it answers.  SysProofs.v shows that for a callback
+      that does not re-enter the two interpreters compute the same.
     No proofs in this file. *)
 From Coq Require Import NArith ZArith List Bool.
 From KdV Require Import Base.Wrap64 Map.MapModel.
+From KdV Require Xlat.Step Hist.ReadCache.
 Import ListNotations.
 Local Open Scope N_scope.
 
@@ -89,8 +105,28 @@ Inductive method :=
 | MCustom (f : N -> Z * fulladdr)
 | MLinear (tas : Z) (off : N)
 | MPgt (tas : Z) (root : fulladdr) (pte64 : bool) (pte_mask : N) (fields : list N)
+| MPgtF (tas : Step.aspace) (root_as : Step.aspace) (root : N) (pte_mask : N) (pf : Step.pform)
 | MLookup (tas : Z) (endoff : N) (tbl : list (N * N))
 | MMemarr (tas : Z) (base : fulladdr) (shift elemsz valsz : N).
+
+(** Xlat/Step.v's enumerations as the C integers *)
+Definition as_of (a : Step.aspace) : Z :=
+  match a with
+  | Step.KPHYSADDR => AS_KPHYS | Step.MACHPHYSADDR => AS_MACHPHYS
+  | Step.KVADDR => AS_KV | Step.NOADDR => AS_NOADDR
+  end.
+
+(** [None]: the model-only outcomes of Step.v (undefined shift, index outside
+    the array, step loop out of fuel) *)
+Definition st_of (st : Step.status) : option Z :=
+  match st with
+  | Step.OK => Some ST_OK | Step.NOTIMPL => Some ST_NOTIMPL | Step.NOTPRESENT => Some ST_NOTPRESENT
+  | Step.INVALID => Some ST_INVALID | Step.NOMEM => Some ST_NOMEM | Step.NODATA => Some ST_NODATA
+  | Step.NOMETH => Some ST_NOMETH
+  | Step.CUSTOM c => if (c =? ST_OK)%Z then None else Some c    (* (a custom code is not ADDRXLAT_OK) *)
+  | Step.BADSHIFT | Step.OOB | Step.NOFUEL => None
+  end.
+
 
 (** [addrxlat_sys_t]: [s_map i] is [sys->map[i]] ([None] = NULL), [s_meth]
     the [meth] array ([ADDRXLAT_SYS_METH_NUM] = 16 slots). *)
@@ -171,12 +207,24 @@ Section Interp.
   Variable lim : option nat.
   Variable osys : option sys.            (* ctl->sys, may be NULL *)
   Variable rcaps : N.                    (* ctx->cb->read_caps(ctx->cb) *)
-  Variable mem : Z -> N -> N -> Z * N.   (* get-page callback + load: as, addr, size *)
+  (** get-page callback + load (address space, address, size): the callback's
+      status and, when that is ADDRXLAT_OK, the value loaded; [None]: the load
+      would go outside the buffer or through a misaligned pointer *)
+  Variable mem : Z -> N -> N -> option (Z * N).
+  (** the page-table format: first step (no memory access), the transition
+      on the raw PTE read at [step->base], the PTE size ([None]: the format's
+      next-step function does not read) *)
+  Variable fmt_first : Step.aspace -> N -> Step.pform -> N -> Step.status * Step.step.
+  Variable fmt_next : Step.aspace -> N -> Step.pform -> Step.step -> N -> Step.status * Step.step.
+  Variable fmt_ptesz : Step.pform -> option N.
+  Variable wfuel : nat.                  (* bound on the steps of one walk *)
 
   (** do_read32 / do_read64 *)
   Definition do_read (fa : fulladdr) (sz : N) : rres :=
-    let '(st, v) := mem (fa_as fa) (fa_addr fa) sz in
-    if (st =? ST_OK)%Z then RVal v else RErr st.
+    match mem (fa_as fa) (fa_addr fa) sz with
+    | Some (st, v) => if (st =? ST_OK)%Z then RVal v else RErr st
+    | None => RUB
+    end.
 
   Section Level.
     (** [internal_op] as called from read32/read64: ctl.caps = read_caps,
@@ -221,6 +269,49 @@ Section Interp.
           end
       end.
 
+    (** The loop of addrxlat_walk for a page table of any format (entered
+        with remain != 0):
+          while (--step->remain) { base.addr += idx[remain] * elemsz;
+                                   status = next_step(step); if (status != OK) return status; }
+          base.as = target_as; base.addr += idx[0] * elemsz;
+        [Step.advance] is the decrement and the addition; next_step reads the
+        PTE at step->base (read_pte32/64) and hands it to the format. *)
+    Fixpoint fwalk_loop (wf : nat) (infl : list key) (tgt : Step.aspace) (mask : N)
+             (pf : Step.pform) (s : Step.step) : wres :=
+      match wf with
+      | O => WUB                                   (* the format's steps do not end *)
+      | S wf' =>
+          match Step.s_remain s with
+          | O => WUB                               (* --remain wraps: idx[65535] *)
+          | S r =>
+              match Step.advance s r with
+              | None => WUB                        (* idx[remain] was never stored *)
+              | Some s1 =>
+                  match r with
+                  | O => WOk (FA (Step.s_base s1) (as_of tgt))
+                  | S _ =>
+                      let cont raw :=
+                        let '(st, s2) := fmt_next tgt mask pf s1 raw in
+                        match st_of st with
+                        | None => WUB
+                        | Some e => if (e =? ST_OK)%Z then fwalk_loop wf' infl tgt mask pf s2
+                                    else WErr e
+                        end in
+                      match fmt_ptesz pf with
+                      | None => cont 0
+                      | Some sz =>
+                          match read infl (FA (Step.s_base s1) (as_of (Step.s_as s1))) sz with
+                          | RVal raw => cont raw
+                          | RErr st => WErr st
+                          | RFuel => WFuel
+                          | RUB => WUB
+                          end
+                      end
+                  end
+              end
+          end
+      end.
+
     (** addrxlat_walk: first_step + the stepping loop, per method kind. *)
     Definition walk (infl : list key) (m : method) (addr : N) : wres :=
       match m with
@@ -230,6 +321,17 @@ Section Interp.
           let '(st, fa) := f addr in
           if (st =? ST_OK)%Z then WOk fa else WErr st
       | MLinear tas off => WOk (FA (xadd off addr) tas)
+      | MPgtF tgt ras root mask pf =>
+          let '(st, s) := fmt_first ras root pf addr in
+          match st_of st with
+          | None => WUB
+          | Some e =>
+              if negb (e =? ST_OK)%Z then WErr e
+              else match Step.s_remain s with
+                   | O => WOk (FA (Step.s_base s) (as_of (Step.s_as s)))
+                   | S _ => fwalk_loop wfuel infl tgt mask pf s
+                   end
+          end
       | MLookup tas endoff tbl =>
           match lookup_find tbl endoff addr with
           | Some (orig, dest) => WOk (FA (xadd dest (xsub addr orig)) tas)
@@ -251,7 +353,7 @@ Section Interp.
             else WErr ST_NOTIMPL
       | MPgt tas root pte64 mask fields =>
           if (fa_as root =? AS_NOADDR)%Z then WErr ST_NODATA
-          else if (8 <? length fields)%nat then WUB
+          else if (8 <? length fields)%nat then WErr ST_NOTIMPL      (* "Too many paging levels" *)
           else match split_fields fields addr with
                | None => WUB
                | Some (idx, top) =>
@@ -407,6 +509,398 @@ Section Interp.
          | Undefined => ConvUndefined
          end.
 End Interp.
+
+(** * The same interpreter with the read cache of ctx.c and a get-page
+    callback that may re-enter the library.
+
+    The cache ([ReadCache.cache]: four slots, the MRU ring) is threaded through
+    every read.  The callback is described by
+    - [gp as addr]: the region (start, size, bytes) it answers with, or the
+      status it fails with, when it serves the address space itself;
+    - [big as addr]: the byte order it stores in the buffer (ADDRXLAT_BIG_ENDIAN
+      or not);
+    - [backing as = Some as']: the callback serves space [as] by first calling
+      [addrxlat_fulladdr_conv] (same context, same system) to convert the
+      requested address to space [as'] -- this is how a dump reader that can
+      read only one space serves the others (kdumpfile/vtop.c) -- and then
+      answers with the region of [as'] around the converted address, shifted
+      back; it fails with the status of the conversion if that fails.
+    As in ReadCache.v the callback stores address, size and pointer into the
+    buffer only when it returns.
+
+    With a callback that can re-enter, *when* the operation of an
+    [addrxlat_op] runs matters: sys.c calls it inside [do_op], i.e. while the
+    record of that [addrxlat_op] is still on the in-flight list.  The
+    operation is therefore a parameter ([opkind]): [KStore] is storeaddr /
+    the caller's operation (the address is handed back), [KRead sz] is
+    read32_op/read64_op -- the load through the cache, performed at the point
+    of the call with the in-flight list of that moment. *)
+Inductive opkind := KStore | KRead (sz : N).
+Inductive xres := XCall (fa : fulladdr) | XVal (v : N) | XErr (st : Z) | XFuel | XUB.
+Definition cache := ReadCache.cache.
+
+(** little-/big-endian decoding of the bytes of a 32- or 64-bit load *)
+Fixpoint decode_le (l : list N) : N :=
+  match l with
+  | [] => 0
+  | b :: tl => b + 256 * decode_le tl
+  end.
+Definition decode (be : bool) (l : list N) : N :=
+  if be then decode_le (rev l) else decode_le l.
+
+(** what a load of [sz] bytes at ([as_], [a]) yields when the callback [gp]
+    is asked directly (no cache): the memory function of section [Interp]
+    that corresponds to a callback of section [Cached] *)
+Definition mem_of (gp : N -> N -> Z + (N * N * list N)) (big : N -> N -> bool)
+           (as_ : Z) (a sz : N) : option (Z * N) :=
+  if negb (N.land a (sz - 1) =? 0) || (W <=? a) then None
+  else match gp (Z.to_N as_) a with
+       | inl st => Some (st, 0)
+       | inr (b, s, d) =>
+           if s <? (a - b) + sz then None
+           else match ReadCache.cut d (a - b) sz with
+                | ReadCache.RBytes l => Some (ST_OK, decode (big (Z.to_N as_) a) l)
+                | _ => None
+                end
+       end.
+
+Section Cached.
+  Variable lim : option nat.
+  Variable osys : option sys.
+  Variable rcaps : N.
+  Variable gp : N -> N -> Z + (N * N * list N).
+  Variable big : N -> N -> bool.
+  Variable backing : N -> option N.
+  Variable fmt_first : Step.aspace -> N -> Step.pform -> N -> Step.status * Step.step.
+  Variable fmt_next : Step.aspace -> N -> Step.pform -> Step.step -> N -> Step.status * Step.step.
+  Variable fmt_ptesz : Step.pform -> option N.
+  Variable wfuel : nat.
+
+  (** [gp] as ReadCache.v wants it (status forgotten) *)
+  Definition gp_region (a_as a : N) : option (N * N * list N) :=
+    match gp a_as a with inr r => Some r | inl _ => None end.
+
+  Inductive bres := BSlot (i : ReadCache.ix) | BErr (st : Z) | BFuel | BUB.
+
+  Section LevelC.
+    (** [internal_op] on the same context: from read32/read64 (caps =
+        read_caps) and from the callback's addrxlat_fulladdr_conv (caps =
+        the one target space) *)
+    Variable nested : list key -> N -> opkind -> fulladdr -> cache -> xres * cache.
+
+    (** the get-page callback for ([a_as], [a]), running while the slot of the
+        miss is in progress: its answer and the cache it leaves *)
+    Definition run_callback (infl : list key) (c : cache) (a_as a : N)
+      : option (Z + (N * N * list N)) * cache * bool :=
+      match backing a_as with
+      | None => (Some (gp a_as a), c, false)
+      | Some as' =>
+          if 64 <=? as' then (None, c, false)                  (* ADDRXLAT_CAPS(as'): undefined *)
+          else
+            match nested infl (N.shiftl 1 as') KStore (FA a (Z.of_N a_as)) c with
+            | (XCall x, c') =>
+                match gp as' (fa_addr x) with
+                | inr (b, sz, d) =>
+                    (* the region around the converted address, seen from [a] *)
+                    (Some (inr (xsub a (xsub (fa_addr x) b), sz, d)), c', false)
+                | inl st => (Some (inl st), c', false)
+                end
+            | (XErr st, c') => (Some (inl st), c', false)
+            | (XFuel, c') => (None, c', true)
+            | (XVal _, c') => (None, c', false)
+            | (XUB, c') => (None, c', false)
+            end
+      end.
+
+    (** get_cache_buf (ctx.c:114-153) *)
+    Definition get_cache_buf (infl : list key) (c : cache) (a_as a : N) : bres * cache :=
+      match ReadCache.find_slot c a_as a with
+      | Some s =>
+          match ReadCache.finish c s with
+          | (c', ReadCache.GOk i) => (BSlot i, c')
+          | (c', _) => (BErr ST_NODATA, c')                 (* "Infinite read recursion" *)
+          end
+      | None =>
+          let '(c1, _, s) := ReadCache.miss_begin c a_as a in
+          match run_callback infl c1 a_as a with
+          | (None, c2, true) => (BFuel, c2)
+          | (None, c2, false) => (BUB, c2)
+          | (Some ans, c2, _) =>
+              match ans with
+              | inl st =>
+                  let '(c3, _, _) := ReadCache.miss_end c2 s None in
+                  if (st =? ST_OK)%Z then (BUB, c3)          (* "failed" with ADDRXLAT_OK *)
+                  else (BErr st, c3)
+              | inr r =>
+                  match ReadCache.miss_end c2 s (Some r) with
+                  | (c3, _, ReadCache.GOk i) => (BSlot i, c3)
+                  | (c3, _, _) => (BErr ST_NODATA, c3)
+                  end
+              end
+          end
+      end.
+
+    (** do_read32 / do_read64: the load through [buf->ptr + (addr - buf->addr)]
+        and the byte-order conversion.  A misaligned pointer or a load that
+        runs past the buffer is undefined. *)
+    Definition do_read_c (infl : list key) (c : cache) (fa : fulladdr) (sz : N) : rres * cache :=
+      let a_as := Z.to_N (fa_as fa) in
+      let a := fa_addr fa in
+      if negb (N.land a (sz - 1) =? 0) || (W <=? a) then (RUB, c)    (* (64-bit addresses) *)
+      else match get_cache_buf infl c a_as a with
+           | (BSlot i, c') =>
+               match ReadCache.read_slot (ReadCache.get_slot c' i) a sz with
+               | ReadCache.RBytes l => (RVal (decode (big a_as a) l), c')
+               | _ => (RUB, c')
+               end
+           | (BErr st, c') => (RErr st, c')
+           | (BFuel, c') => (RFuel, c')
+           | (BUB, c') => (RUB, c')
+           end.
+
+    (** read32 / read64 *)
+    Definition read_c (infl : list key) (c : cache) (fa : fulladdr) (sz : N) : rres * cache :=
+      match caps_has rcaps (fa_as fa) with
+      | None => (RUB, c)
+      | Some true => do_read_c infl c fa sz
+      | Some false =>
+          match nested infl rcaps (KRead sz) fa c with
+          | (XVal v, c') => (RVal v, c')
+          | (XErr st, c') => (RErr st, c')
+          | (XFuel, c') => (RFuel, c')
+          | (XCall _, c') => (RUB, c')
+          | (XUB, c') => (RUB, c')
+          end
+      end.
+
+    Fixpoint pgt_levels_c (infl : list key) (tas : Z) (pte64 : bool) (mask sh0 : N)
+             (idxs : list N) (base : fulladdr) (c : cache) : wres * cache :=
+      match idxs with
+      | [] => (WOk base, c)
+      | i :: tl =>
+          let ptesz := if pte64 then 8 else 4 in
+          let ea := FA (xadd (fa_addr base) (xmul i ptesz)) (fa_as base) in
+          match read_c infl c ea ptesz with
+          | (RVal raw, c') =>
+              let pte := N.ldiff raw mask in
+              if pte =? 0 then (WErr ST_NOTPRESENT, c')
+              else pgt_levels_c infl tas pte64 mask sh0 tl (FA (xshl pte sh0) tas) c'
+          | (RErr st, c') => (WErr st, c')
+          | (RFuel, c') => (WFuel, c')
+          | (RUB, c') => (WUB, c')
+          end
+      end.
+
+    Fixpoint fwalk_loop_c (wf : nat) (infl : list key) (tgt : Step.aspace) (mask : N)
+             (pf : Step.pform) (s : Step.step) (c : cache) : wres * cache :=
+      match wf with
+      | O => (WUB, c)
+      | S wf' =>
+          match Step.s_remain s with
+          | O => (WUB, c)
+          | S r =>
+              match Step.advance s r with
+              | None => (WUB, c)
+              | Some s1 =>
+                  match r with
+                  | O => (WOk (FA (Step.s_base s1) (as_of tgt)), c)
+                  | S _ =>
+                      let cont raw c' :=
+                        let '(st, s2) := fmt_next tgt mask pf s1 raw in
+                        match st_of st with
+                        | None => (WUB, c')
+                        | Some e => if (e =? ST_OK)%Z then fwalk_loop_c wf' infl tgt mask pf s2 c'
+                                    else (WErr e, c')
+                        end in
+                      match fmt_ptesz pf with
+                      | None => cont 0 c
+                      | Some sz =>
+                          match read_c infl c (FA (Step.s_base s1) (as_of (Step.s_as s1))) sz with
+                          | (RVal raw, c') => cont raw c'
+                          | (RErr st, c') => (WErr st, c')
+                          | (RFuel, c') => (WFuel, c')
+                          | (RUB, c') => (WUB, c')
+                          end
+                      end
+                  end
+              end
+          end
+      end.
+
+    Definition walk_c (infl : list key) (m : method) (addr : N) (c : cache) : wres * cache :=
+      match m with
+      | MNone => (WErr ST_NOMETH, c)
+      | MBadKind => (WErr ST_NOTIMPL, c)
+      | MCustom f =>
+          let '(st, fa) := f addr in
+          if (st =? ST_OK)%Z then (WOk fa, c) else (WErr st, c)
+      | MLinear tas off => (WOk (FA (xadd off addr) tas), c)
+      | MLookup tas endoff tbl =>
+          match lookup_find tbl endoff addr with
+          | Some (orig, dest) => (WOk (FA (xadd dest (xsub addr orig)) tas), c)
+          | None => (WErr ST_NOTPRESENT, c)
+          end
+      | MMemarr tas base shift elemsz valsz =>
+          if 64 <=? shift then (WUB, c)
+          else
+            let idx0 := N.land addr (N.ones shift) in
+            let idx1 := N.shiftr addr shift in
+            let ea := FA (xadd (fa_addr base) (xmul idx1 elemsz)) (fa_as base) in
+            if (valsz =? 4) || (valsz =? 8) then
+              match read_c infl c ea valsz with
+              | (RVal v, c') => (WOk (FA (xadd (xshl v shift) idx0) tas), c')
+              | (RErr st, c') => (WErr st, c')
+              | (RFuel, c') => (WFuel, c')
+              | (RUB, c') => (WUB, c')
+              end
+            else (WErr ST_NOTIMPL, c)
+      | MPgt tas root pte64 mask fields =>
+          if (fa_as root =? AS_NOADDR)%Z then (WErr ST_NODATA, c)
+          else if (8 <? length fields)%nat then (WErr ST_NOTIMPL, c)
+          else match split_fields fields addr with
+               | None => (WUB, c)
+               | Some (idx, top) =>
+                   if negb (top =? 0) then (WErr ST_INVALID, c)
+                   else match idx with
+                        | [] => (WOk root, c)
+                        | i0 :: upper =>
+                            match pgt_levels_c infl tas pte64 mask (hd 0 fields)
+                                               (rev upper) root c with
+                            | (WOk b, c') => (WOk (FA (xadd (fa_addr b) i0) tas), c')
+                            | r => r
+                            end
+                        end
+               end
+      | MPgtF tgt ras root mask pf =>
+          let '(st, s) := fmt_first ras root pf addr in
+          match st_of st with
+          | None => (WUB, c)
+          | Some e =>
+              if negb (e =? ST_OK)%Z then (WErr e, c)
+              else match Step.s_remain s with
+                   | O => (WOk (FA (Step.s_base s) (as_of (Step.s_as s))), c)
+                   | S _ => fwalk_loop_c wfuel infl tgt mask pf s c
+                   end
+          end
+      end.
+
+    Fixpoint do_alts_c (s : sys) (infl : list key) (caps : N) (alts : list N)
+             (pa : fulladdr) (c : cache) : ares * cache :=
+      match alts with
+      | [] => (AExhausted, c)
+      | mapidx :: rest =>
+          if negb (fa_as pa =? map_expect_as mapidx)%Z then do_alts_c s infl caps rest pa c
+          else match s_map s mapidx with
+          | None => do_alts_c s infl caps rest pa c
+          | Some mp =>
+              let methidx := xmap_search mp (fa_addr pa) in
+              if (methidx =? NONE)%Z then do_alts_c s infl caps rest pa c
+              else match get_meth s methidx with
+              | None => (AReturn UB, c)
+              | Some (MLinear tas off) =>
+                  let lastbase := FA (xadd (fa_addr pa) off) tas in
+                  match caps_has caps tas with
+                  | None => (AReturn UB, c)
+                  | Some true => (AReturn (Call lastbase), c)
+                  | Some false => (ABreak lastbase, c)
+                  end
+              | Some m =>
+                  match walk_c infl m (fa_addr pa) c with
+                  | (WOk b, c') =>
+                      match caps_has caps (fa_as b) with
+                      | None => (AReturn UB, c')
+                      | Some true => (AReturn (Call b), c')
+                      | Some false => (ABreak b, c')
+                      end
+                  | (WErr st, c') =>
+                      if (st =? ST_NOMETH)%Z || (st =? ST_NODATA)%Z
+                      then do_alts_c s infl caps rest pa c'
+                      else (AReturn (Err st), c')
+                  | (WFuel, c') => (AReturn OutOfFuel, c')
+                  | (WUB, c') => (AReturn UB, c')
+                  end
+              end
+          end
+      end.
+
+    Fixpoint do_chain_c (s : sys) (infl : list key) (caps : N) (ch : list (list N))
+             (pa : fulladdr) (c : cache) : cres * cache :=
+      match ch with
+      | [] => (Err ST_NOMETH, c)
+      | alts :: rest =>
+          match do_alts_c s infl caps alts pa c with
+          | (AReturn r, c') => (r, c')
+          | (ABreak pa', c') => do_chain_c s infl caps rest pa' c'
+          | (AExhausted, c') => do_chain_c s infl caps rest pa c'
+          end
+      end.
+    (** [ctl->op(ctl->data, x)], called with [infl] in flight *)
+    Definition finish_op (kind : opkind) (infl : list key) (x : fulladdr) (c : cache)
+      : xres * cache :=
+      match kind with
+      | KStore => (XCall x, c)
+      | KRead sz =>
+          match do_read_c infl c x sz with
+          | (RVal v, c') => (XVal v, c')
+          | (RErr st, c') => (XErr st, c')
+          | (RFuel, c') => (XFuel, c')
+          | (RUB, c') => (XUB, c')
+          end
+      end.
+
+    (** addrxlat_op given the function that serves nested calls: the
+        operation runs before the record is popped *)
+    Definition op_body_c (kind : opkind) (infl : list key) (caps : N) (fa : fulladdr) (c : cache)
+      : xres * cache :=
+      match op_pre lim osys infl caps fa with
+      | inl (Call a) => finish_op kind infl a c
+      | inl (Err st) => (XErr st, c)
+      | inl OutOfFuel => (XFuel, c)
+      | inl UB => (XUB, c)
+      | inr (s, k, ch) =>
+          match do_chain_c s (k :: infl) caps (chain_tbl ch) fa c with
+          | (Call x, c') => finish_op kind (k :: infl) x c'
+          | (Err st, c') => (XErr st, c')
+          | (OutOfFuel, c') => (XFuel, c')
+          | (UB, c') => (XUB, c')
+          end
+      end.
+  End LevelC.
+
+  Definition no_fuel : list key -> N -> opkind -> fulladdr -> cache -> xres * cache :=
+    fun _ _ _ _ c => (XFuel, c).
+
+  Fixpoint op_core_c (fuel : nat) (infl : list key) (caps : N) (kind : opkind) (fa : fulladdr)
+           (c : cache) : xres * cache :=
+    match fuel with
+    | O => match op_pre lim osys infl caps fa with
+           | inr _ => (XFuel, c)
+           | inl _ => op_body_c no_fuel kind infl caps fa c
+           end
+    | S f => op_body_c (op_core_c f) kind infl caps fa c
+    end.
+
+  (** addrxlat_op / addrxlat_fulladdr_conv on a context whose cache is [c] *)
+  Definition addrxlat_op_c (fuel : nat) (opret : fulladdr -> Z) (caps : N) (fa : fulladdr)
+             (c : cache) : outcome * cache :=
+    match op_core_c fuel [] caps KStore fa c with
+    | (XCall x, c') => (Done (opret x) [x], c')
+    | (XErr st, c') => (Done st [], c')
+    | (XFuel, c') => (NoFuel, c')
+    | (XVal _, c') => (Undefined, c')
+    | (XUB, c') => (Undefined, c')
+    end.
+
+  Definition fulladdr_conv_c (fuel : nat) (fa : fulladdr) (as_ : Z) (c : cache)
+    : conv_outcome * cache :=
+    if negb ((0 <=? as_) && (as_ <? 64))%Z then (ConvUndefined, c)
+    else match addrxlat_op_c fuel (fun _ => ST_OK) (N.shiftl 1 (Z.to_N as_)) fa c with
+         | (Done st [], c') => (Conv st fa, c')
+         | (Done st (x :: _), c') => (Conv st x, c')
+         | (NoFuel, c') => (ConvNoFuel, c')
+         | (Undefined, c') => (ConvUndefined, c')
+         end.
+End Cached.
 
 (** The depth limit of the repaired tree (MAX_OP_DEPTH in sys.c). *)
 Definition MAX_OP_DEPTH : nat := 16.
